@@ -63,6 +63,11 @@ class MultiIndexConverter(Transformer):
         # Restore original MultiIndexes
         for dim, original_index in reference_indexes.items():
             if dim in X_inverse_transformed.dims:
+                # Entries may have been dropped in between (e.g. entirely missing samples);
+                # the positional labels written by `transform` tell which ones are left
+                if X_inverse_transformed.sizes[dim] != original_index.sizes[dim]:
+                    positions = X_inverse_transformed.coords[dim].values
+                    original_index = original_index.isel({dim: positions})
                 X_inverse_transformed.coords[dim] = original_index
                 # Set indexes to original MultiIndexes
                 indexes = [idx for idx in original_index.indexes.keys() if idx != dim]
